@@ -553,6 +553,8 @@ impl WriteBackend for LocalBackend {
                 return Err(err);
             }
         }
+        #[cfg(feature = "verif-hooks")]
+        crate::verif::pre_publish(&filename_tmp, &filename)?;
         // rename temporary file to real file
         fs::rename(&filename_tmp, &filename).map_err(|err| {
             RusticError::with_source(
